@@ -11,7 +11,7 @@ import copy
 
 from harness import ctxrun
 from harness import gen_ctx as GC
-from harness.common import ImplWorker, Model, Report, rng_for
+from harness.common import ImplWorker, Model, Report, rng_for, depth
 from harness.impl import H_PLAIN, V_NONE
 from harness.props.c01 import sig_case
 
@@ -48,7 +48,7 @@ def corpus() -> list[dict]:
 
 def run(tier: str, seed: int, rep: Report, model: Model) -> dict:
     rnd = rng_for("C10", seed)
-    n = 1000 if tier == "quick" else 10000
+    n = depth(tier, 1000, 10000)
     rep.rule = ("contexts rich in optional hints (parameters, tuple elements, return) with random None / conforming / violating values; "
                 "plus unions with non-None alternatives; distinct = distinct case; non-trivial = at least one None at an annotated position")
     cases = corpus()
